@@ -3,6 +3,7 @@
 from ..r_canon import rule_hash_inputs, rule_order_free_hash, rule_no_ambient_nondeterminism
 from ..r_construct import rule_literal_keys, rule_keep_lists
 from ..r_alias import rule_no_mutation_of_cached
+from ..r_construct import rule_seeded_string_complete as _rule_seeded
 
 LEVEL = 'other'
 
@@ -18,3 +19,4 @@ def run(ck, repo):
     rule_literal_keys(ck, repo)
     rule_keep_lists(ck, repo)
     rule_no_mutation_of_cached(ck, repo, 'C19.D4-cached-value-not-mutated')
+    _rule_seeded(ck, repo, 'C19.D4-seeded-string')
